@@ -144,9 +144,13 @@ func verifC18Sys(id string, seed int64) *verifSys {
 		w := verifNewPair(verifPairCfg{Seed: seed, PolA: pa, PolB: pb})
 		m := &monC18{U: u, NSend: [2]int{2, 2}, NEnd: [2]int{1, 1}, NQuery: [2]int{1, 1}, NErr: [2]int{1, 1}, NTick: 1, LastSent: [2]int{-1, -1}}
 		w.Mon = m
-		if strings.HasPrefix(start, "est") {
+		if strings.HasPrefix(start, "est") || strings.HasPrefix(start, "lost") {
 			n := 0
-			fmt.Sscanf(start, "est%d", &n)
+			if strings.HasPrefix(start, "est") {
+				fmt.Sscanf(start, "est%d", &n)
+			} else {
+				fmt.Sscanf(start, "lost%d", &n)
+			}
 			w.Q[1] = append(w.Q[1], w.P[0].Query())
 			if !w.deliverAll(40, nil) || !w.P[0].C.IsEncrypted() || !w.P[1].C.IsEncrypted() {
 				panic("verif: C18 setup failed for " + id)
@@ -161,6 +165,14 @@ func verifC18Sys(id string, seed int64) *verifSys {
 					w.push(i, r.Out)
 					w.deliverAll(10, nil)
 				}
+			}
+			if strings.HasPrefix(start, "lost") {
+				// "restart by the peer": B's client comes back with its long-term key and instance tag and nothing
+				// else, while A still holds the session
+				old := w.P[1]
+				w.P[1] = verifNewPrincipal(verifConvCfg{Name: "B", Seed: seed + 500, Policies: old.C.Policies, Key: verifKey(seed, "B")})
+				w.P[1].C.ourInstanceTag = old.C.ourInstanceTag
+				m.LastSent[1] = -1
 			}
 			w.P[0].Rec.take()
 			w.P[1].Rec.take()
@@ -413,17 +425,17 @@ func init() {
 		Level: "model_checking",
 		Build: verifC18Sys,
 		Run: func(r *verifReport) {
-			r.Rule = "all sequences of lifecycle operations of both sides (query, Send(marker), End, injected peer error report, clock tick) within a budget U of user/environment events, interleaved with every FIFO delivery order, from plaintext and from established sessions with history; lock-step reference: legal IsEncrypted transitions and their triggers, exact security events per transition, finished-state refusal, disconnect handling, and a transmission ledger obtained by opening every emitted data message with the sender's keys"
+			r.Rule = "all sequences of lifecycle operations of both sides (query, Send(marker), End, injected peer error report, clock tick) within a budget U of user/environment events, interleaved with every FIFO delivery order, from plaintext, from established sessions with history, and from the situation after a restart of the peer's client (it has lost the session, we still hold it); lock-step reference: legal IsEncrypted transitions and their triggers, exact security events per transition, finished-state refusal, disconnect handling, and a transmission ledger obtained by opening every emitted data message with the sender's keys"
 			r.Assumptions = []string{"no fragmentation in this exploration", "the ledger opens data messages with package-internal key material of the sender (not an independent implementation)"}
 			var ids []string
 			if r.Tier == "quick" {
 				for _, pol := range []string{"3-3", "3r-3", "3e-3e", "3rws-3ws", "3re-3re"} {
 					ids = append(ids, pol+"/plain/U3")
 				}
-				ids = append(ids, "3-3/est1/U3", "3e-3e/est2/U3", "3r-3r/est1/U3")
+				ids = append(ids, "3-3/est1/U3", "3e-3e/est2/U3", "3r-3r/est1/U3", "3e-3e/lost1/U3")
 			} else {
 				// sized to complete within the 25-minute budget (≈ 2 M states): sessions with history and OTRv2 first
-				ids = append(ids, "3-3/est1/U4", "3e-3e/est2/U4", "3r-3r/est1/U4", "3re-3re/est3/U4", "2e-2e/est2/U4", "2r-2/plain/U4")
+				ids = append(ids, "3-3/est1/U4", "3e-3e/est2/U4", "3r-3r/est1/U4", "3re-3re/est3/U4", "2e-2e/est2/U4", "2r-2/plain/U4", "3e-3e/lost1/U4", "3r-3/lost1/U4", "2e-2/lost1/U4")
 				for _, pa := range []string{"3", "3r", "3e", "3ws", "3rews"} {
 					for _, pb := range []string{"3", "3r", "3e", "3rews"} {
 						ids = append(ids, pa+"-"+pb+"/plain/U4")
